@@ -1117,6 +1117,19 @@ class PendingClassDef(_PendingCompoundStmt[ClassDef]):
     def get_result(self) -> list[expr]:
         return_list: list[expr] = []
 
+        # decorators are evaluated before the class is created
+        # and applied (bottom-up) after the class body has run
+        class_decorators: list[expr] = []
+        for dec_expr in self.node.decorator_list:
+            decorator = expr_transf(self.nsp, dec_expr)
+            if not isinstance(dec_expr, Name):
+                tmp_decorator_name = Name(id=ol_name(OL_ASSIGN_TMP))
+                return_list.append(
+                    NamedExpr(target=tmp_decorator_name, value=decorator)
+                )
+                decorator = tmp_decorator_name
+            class_decorators.append(decorator)
+
         class_bases = [expr_transf(self.nsp, _expr) for _expr in self.node.bases]
 
         metaclass_expr = None
@@ -1224,6 +1237,18 @@ class PendingClassDef(_PendingCompoundStmt[ClassDef]):
             ],
         )
         return_list.append(load_class)
+
+        for decorator in reversed(class_decorators):
+            return_list.append(
+                self.nsp.get_assign(
+                    self.node.name,
+                    Call(
+                        func=decorator,
+                        args=[self.nsp.get_load_name(self.node.name)],
+                        keywords=[],
+                    ),
+                )
+            )
         return return_list
 
 
